@@ -9,29 +9,30 @@ Ok(o) == o[1] = "ok"
 
 \* g without node a (edges touching a dropped; node ids kept)
 Without(g, a) == [n |-> g.n, dir |-> g.dir, E |-> SelectSeq(g.E, LAMBDA e : e[1] # a /\ e[2] # a)]
-\* A dominates B (w.r.t. root): B reachable, and every path root -> B passes through A
-Dominates(g, root, A, B) ==
-    /\ B \in ReachFrom(g, root)
-    /\ (A = B \/ A = root \/ B \notin ReachFrom(Without(g, A), root))
-DomSet(g, root, B) == {A \in Nodes(g) : Dominates(g, root, A, B)}
-
+\* A dominates B (w.r.t. root): B reachable, and every path root -> B passes through A,
+\* i.e. B is no longer reachable once A is deleted.  RA[A] = nodes reachable from the root without A.
 DomOK(g, d) ==
     LET root == d.root
         reach == ReachFrom(g, root)
-        SD(B) == DomSet(g, root, B) \ {B}
+        RA == TLCEval([A \in Nodes(g) |-> IF A = root THEN {} ELSE ReachFrom(Without(g, A), root)])
+        Dominates(A, B) == B \in reach /\ (A = B \/ B \notin RA[A])
+        DomSet(B) == {A \in Nodes(g) : Dominates(A, B)}
+        DS == TLCEval([B \in Nodes(g) |-> DomSet(B)])
+        SD(B) == DS[B] \ {B}
         \* the immediate dominator: the strict dominator that all other strict dominators dominate
-        Idom(B) == CHOOSE A \in SD(B) : \A X \in SD(B) : Dominates(g, root, X, A)
+        Idom(B) == CHOOSE A \in SD(B) : \A X \in SD(B) : X \in DS[A]
+        ID == TLCEval([B \in reach \ {root} |-> Idom(B)])
     IN
     \A B \in Nodes(g) :
         IF B \notin reach
         THEN d.doms[B + 1] = <<"none">> /\ d.sdoms[B + 1] = <<"none">> /\ d.idom[B + 1] = -1
-        ELSE /\ d.doms[B + 1][1] = "some" /\ SeqRange(d.doms[B + 1][2]) = DomSet(g, root, B)
-             /\ Len(d.doms[B + 1][2]) = Cardinality(DomSet(g, root, B))
+        ELSE /\ d.doms[B + 1][1] = "some" /\ SeqRange(d.doms[B + 1][2]) = DS[B]
+             /\ Len(d.doms[B + 1][2]) = Cardinality(DS[B])
              /\ d.sdoms[B + 1][1] = "some" /\ SeqRange(d.sdoms[B + 1][2]) = SD(B)
              /\ Len(d.sdoms[B + 1][2]) = Cardinality(SD(B))
-             /\ d.idom[B + 1] = (IF B = root THEN -1 ELSE Idom(B))
-             /\ SeqRange(d.idby[B + 1]) = {X \in reach \ {root} : Idom(X) = B}
-             /\ Len(d.idby[B + 1]) = Cardinality({X \in reach \ {root} : Idom(X) = B})
+             /\ d.idom[B + 1] = (IF B = root THEN -1 ELSE ID[B])
+             /\ SeqRange(d.idby[B + 1]) = {X \in reach \ {root} : ID[X] = B}
+             /\ Len(d.idby[B + 1]) = Cardinality({X \in reach \ {root} : ID[X] = B})
 
 \* v is an articulation point iff removing it increases the number of connected components
 NComp(g, alive) == Cardinality({WComp(g, u) \cap alive : u \in alive})
@@ -41,7 +42,7 @@ Bad(r) ==
     LET g == [n |-> r.n, dir |-> r.dir, E |-> r.E]
         chk(f, P(_)) == IF Has(r, f) /\ ~(Ok(r[f]) /\ P(r[f][2])) THEN {f} ELSE {}
     IN
-    chk("dom", LAMBDA v : \A j \in DOMAIN v : v[j].root = j - 1 /\ DomOK(g, v[j]))
+    chk("dom", LAMBDA v : \A j \in DOMAIN v : v[j].root = j - 1 /\ DomOK(g, v[j]))   \* roots 0..Len(v)-1
     \cup chk("art", LAMBDA v : SeqRange(v) = ArtSet(g) /\ Len(v) = Cardinality(ArtSet(g)))
 
 Init == i \in 1 .. Len(Recs) /\ verdict = "pending"
